@@ -123,7 +123,7 @@ def c02(r):
         fm = fm_of(ctx, gs)
         L = d.get("ledger", {})
         # effective curve number bound is the property's own quantifier
-        cn_eff = ctx["soil"]["cn"] * (1 + fm["curve_number_adj_pct"] / 100.0)
+        cn_eff = ctx["soil"]["cn"] * (1 + (fm["curve_number_adj_pct"] if fm["curve_number_adj"] else 0) / 100.0)
         if cn_eff > 100:
             continue
         p = float(w[t, 2])
